@@ -73,6 +73,27 @@ Proof.
     specialize (H3 _ Hin). destruct v; [reflexivity | congruence].
 Qed.
 
+Lemma settledb_spec s p :
+  settledb s p = true <->
+  exists a, svol s p = Some a /\ sdur s p = Some a /\ forall v, ~ In (p, v) (spend s).
+Proof.
+  unfold settledb. split.
+  - destruct (svol s p) as [a|]; [|discriminate]. destruct (sdur s p) as [b|]; [|discriminate].
+    intro H. apply andb_true_iff in H as [H1 H2]. apply N.eqb_eq in H1. subst b.
+    exists a. repeat split. intros v Hin. rewrite forallb_forall in H2.
+    specialize (H2 _ Hin). simpl in H2. rewrite path_eqb_refl in H2. discriminate.
+  - intros (a & Hv & Hd & Hp). rewrite Hv, Hd, N.eqb_refl. simpl.
+    apply forallb_forall. intros [q v] Hin. simpl.
+    destruct (path_eqb q p) eqn:E; [|reflexivity]. apply path_eqb_eq in E. subst q.
+    exfalso. eapply Hp; eauto.
+Qed.
+
+Lemma settledb_present s p : settledb s p = true -> present_all s p.
+Proof.
+  intro H. apply settledb_spec in H as (a & Hv & Hd & Hp).
+  repeat split; eauto. intros v Hin. exfalso. eapply Hp; eauto.
+Qed.
+
 (** how one system call changes the possible bindings *)
 Lemma image_step s c p ino :
   image (step s c) p ino ->
@@ -349,8 +370,8 @@ Proof.
       - destruct Hin as [<-|Hin]; [|left; split; [assumption|discriminate]].
         right. split; [reflexivity|]. simpl in Hg.
         destruct (finalb p0) eqn:Ef; simpl in Hg; [|discriminate]. split; [reflexivity|].
-        destruct (present_allb (mfs m) p0) eqn:Ep; simpl in Hg; [|discriminate].
-        now apply present_allb_spec. }
+        destruct (settledb (mfs m) p0) eqn:Ep; simpl in Hg; [|discriminate].
+        now apply settledb_present. }
     destruct Hcase as [[Hold Hnu]|(-> & Hf & Hp)].
     + destruct (inv_ack _ HI _ Hold) as [Hf Hp]. split; [assumption|].
       apply present_all_step; try assumption.
